@@ -4,6 +4,8 @@ usage: kf.py add <property> <signature> <what> [--model-based]
        kf.py fixed <property> <commit> <what>"""
 import sys, json, os
 P = os.path.join(os.path.dirname(os.path.dirname(os.path.abspath(__file__))), 'known_findings.json')
+import fcntl
+_lock = open(P + '.lock', 'w'); fcntl.flock(_lock, fcntl.LOCK_EX)
 d = json.load(open(P)) if os.path.exists(P) else {'findings': []}
 a = sys.argv[1:]
 if a[0] == 'add':
